@@ -4,7 +4,7 @@ Monitor shape: every public operation of toolkit.bits.Bitset (and the halving he
 class and compared with an MSB-first list-of-bits reference model written here. Exhaustive for small widths,
 random + boundary values up to 300 bits, and a sweep of the no-length constructor over 2^k-1, 2^k, 2^k+1.
 """
-from vlib.common import fp
+from vlib.common import fp, exc_site
 
 LEVEL = "exploration"
 SHARD_TIMEOUT = {"quick": 200, "thorough": 1200}
@@ -104,6 +104,14 @@ class Mon:
 
 
 def check_unary(Bitset, bu, mon, v, n, acc, full=True):
+    try:
+        _check_unary(Bitset, bu, mon, v, n, acc, full)
+    except Exception as e:  # an operation inside the property's domain raised: that is a refutation, not a crash
+        acc.violation("bitset:raised:" + exc_site(e), f"unary operations on ({v},{n}) raised {type(e).__name__}: {e}",
+                      {"a": v, "la": n})
+
+
+def _check_unary(Bitset, bu, mon, v, n, acc, full=True):
     case = {"a": v, "la": n}
     model = m_bits(v, n)
     a = Bitset(v, n) if n else Bitset(v, 0)
@@ -181,6 +189,14 @@ def check_unary(Bitset, bu, mon, v, n, acc, full=True):
 
 
 def check_binary(Bitset, mon, va, na, vb, nb, acc):
+    try:
+        _check_binary(Bitset, mon, va, na, vb, nb, acc)
+    except Exception as e:
+        acc.violation("bitset:raised:" + exc_site(e), f"binary operations on ({va},{na}),({vb},{nb}) raised "
+                      f"{type(e).__name__}: {e}", {"a": va, "la": na, "b": vb, "lb": nb})
+
+
+def _check_binary(Bitset, mon, va, na, vb, nb, acc):
     case = {"a": va, "la": na, "b": vb, "lb": nb}
     a, b = Bitset(va, na), Bitset(vb, nb)
     ma, mb = m_bits(va, na), m_bits(vb, nb)
